@@ -2,39 +2,51 @@
 (***************************************************************************)
 (* The go-mail SMTP client session (client.go, client_120.go, smtp/smtp.go)*)
 (* composed with an adversarial environment: reply classes at every        *)
-(* command, disconnects, render faults.  One action per protocol step of   *)
-(* the code (file:line in DESIGN.md, appendix B).  Every action emits the  *)
-(* events a recorder on the wire / on the API would see and feeds them to  *)
-(* the observer (SessionObs.tla); the properties are the observer's        *)
-(* predicates, checked here as the invariant  obs.viol = {}.               *)
+(* command, disconnects, stalls, TLS handshake outcomes, render faults.    *)
+(* One action per protocol step of the code (DESIGN.md, appendix B).       *)
+(* Every action emits the events a recorder on the wire / on the API would *)
+(* see and feeds them to the observer (SessionObs.tla); the properties are *)
+(* the observer's predicates, checked here as the invariant obs.viol = {}  *)
+(* and, for C17, as termination of every behaviour.                        *)
 (*                                                                         *)
 (* This is the *intended* design.  Deviations that the pinned code showed  *)
 (* are named DEV_* constants: with a deviation switched on TLC must find   *)
-(* the corresponding violation (used as a sensitivity test of the          *)
-(* predicates, never for verdicts).                                        *)
+(* the corresponding violation (sensitivity test of the predicates, never  *)
+(* used for verdicts).                                                     *)
 (***************************************************************************)
 EXTENDS SessionObs, Json, SequencesExt
 
 CONSTANTS
-  OP,            \* "Send" (dial without faults, Send, Close), "DialAndSend", "Dial"
+  OP,            \* "Send" (dial without faults, Send, Close), "DialAndSend", "Dial", "Reset" (dial, Reset, Close)
   N,             \* messages in the batch
   MAXR,          \* recipients per message: 1..MAXR
   BUDGET,        \* number of non-default environment choices (faults)
-  CAPSETS,       \* set of capability sets the server may advertise
+  CAPSETS,       \* capability sets the server may advertise (beside STARTTLS / AUTH)
   RENDERKINDS,   \* render outcomes beside "ok"
   ENC8,          \* may messages be 8bit encoded?  BOOLEAN subset
   DSNS,          \* client DSN configurations, subset of {"off","ret","notify","both"}
   NONOOP,        \* subset of BOOLEAN: WithoutNoop
   SHAPES,        \* reply text shapes: subset of {"lead","later","none"}
-  CLASSES,       \* fault classes: subset of {"t4","p5","drop","x3"}
+  CLASSES,       \* fault classes: subset of {"t4","p5","drop","x3","stall","garbage"}
   CODESETS,      \* rotations of the reply-code table, subset of 0..99
+  POLICIES,      \* TLS policies: subset of {"mandatory","opportunistic","none"}
+  AUTHTYPES,     \* client auth types
+  HOSTKINDS,     \* subset of {"localhost","other"}
+  STARTTLSADV,   \* subset of BOOLEAN: does the server advertise STARTTLS
+  AUTHLISTS,     \* advertised AUTH mechanism lists (sets); {} = no AUTH extension
+  HANDSHAKES,    \* TLS handshake outcomes: subset of {"ok","wrongname","untrusted","garbage","stall"}
+  CAPS2,         \* capability sets advertised after STARTTLS
+  LOGAUTH,       \* subset of BOOLEAN: WithLogAuthData
   DEV_ImplicitDot, DEV_NoRsetAfterDataReject, DEV_ContinueAfterRsetFail,
-  DEV_LeakOnDialError, DEV_QuitFailureLeavesConn
+  DEV_LeakOnDialError, DEV_QuitFailureLeavesConn, DEV_NoDeadlineInDial,
+  DEV_NoopBeforeDeadline, DEV_WindowStaysOpen
 
-VARIABLES pc, m, r, ext, dead, rej, dl, se, top, budget, nfault, dotOpen,
-          cfg, obs, hist, pred
+VARIABLES cl,    \* client state (record)
+          env,   \* environment bookkeeping: fault budget, history, predicted projection
+          cfg,   \* scenario configuration (constant during a behaviour)
+          obs    \* the observer
 
-vars == <<pc, m, r, ext, dead, rej, dl, se, top, budget, nfault, dotOpen, cfg, obs, hist, pred>>
+vars == <<cl, env, cfg, obs>>
 
 NoErr == [haserr |-> FALSE, reason |-> "", code |-> 0, temp |-> FALSE, esc |-> "", rcpts |-> <<>>]
 
@@ -43,352 +55,579 @@ NoErr == [haserr |-> FALSE, reason |-> "", code |-> 0, temp |-> FALSE, esc |-> "
 (* code 400..599 occur at every position; the codes of one scenario are distinct.  *)
 CodeOf(cls, k) == IF cls = "t4" THEN 400 + ((cfg.cs + 33 * (k - 1)) % 100)
                   ELSE IF cls = "p5" THEN 500 + ((cfg.cs + 33 * (k - 1)) % 100)
-                  ELSE IF cls = "x3" THEN 330 + k ELSE 0
+                  ELSE IF cls = "x3" THEN 330 + k ELSE IF cls = "mal" THEN 334 ELSE 0
 EscOf(cls, k)  == IF cls = "t4" THEN <<"4.5.1", "4.5.2", "4.5.3", "4.5.4">>[k]
                   ELSE IF cls = "p5" THEN <<"5.5.1", "5.5.2", "5.5.3", "5.5.4">>[k] ELSE ""
-OkCode(v) == CASE v = "DATA" -> 354 [] v = "QUIT" -> 221 [] v = "GREET" -> 220 [] OTHER -> 250
+OkCode(v) == CASE v = "DATA" -> 354 [] v = "QUIT" -> 221 [] v \in {"GREET", "STARTTLS"} -> 220
+               [] v = "ABORT" -> 501 [] OTHER -> 250
 
-EnvChoices == {[c |-> "ok", sh |-> "none"]} \cup
-           (IF budget > 0 THEN {[c |-> c, sh |-> IF c = "drop" THEN "none" ELSE s] : c \in CLASSES, s \in SHAPES}
-            ELSE {})
+OkChoice == [c |-> "ok", sh |-> "none"]
+EnvChoices == {OkChoice} \cup
+              (IF env.budget > 0
+               THEN {[c |-> c, sh |-> IF c \in {"t4", "p5"} THEN s ELSE "none"] : c \in CLASSES \ {"mal"}, s \in SHAPES}
+               ELSE {})
+DialFaults  == OP \notin {"Send", "Reset"}     \* in Send / Reset mode the dial is the clean prefix
+DialChoices == IF DialFaults THEN EnvChoices ELSE {OkChoice}
+
+(* a malformed 334 challenge can only be injected into an AUTH exchange *)
+(* (not for XOAUTH2: that client answers it with QUIT, which the server reads as a response) *)
+AuthChoices == DialChoices \cup (IF DialFaults /\ env.budget > 0 /\ "mal" \in CLASSES /\ cl.mech # "XOAUTH2"
+                                 THEN {[c |-> "mal", sh |-> "none"]} ELSE {})
+
+Lost(c) == c \in {"drop", "stall", "garbage"}   \* the connection is unusable afterwards
 
 (* what the client stores for a failed step *)
 ErrOf(reason, ch, k, rc) ==
   [haserr |-> TRUE, reason |-> reason, temp |-> ch.c = "t4",
    code |-> IF ch.c \in {"t4", "p5"} THEN CodeOf(ch.c, k) ELSE 0,   \* only 4yz / 5yz codes are reported
-   esc |-> IF "ENHANCEDSTATUSCODES" \in ext /\ ch.sh = "lead" THEN EscOf(ch.c, k) ELSE "",
+   esc |-> IF "ENHANCEDSTATUSCODES" \in cl.ext /\ ch.sh = "lead" THEN EscOf(ch.c, k) ELSE "",
    rcpts |-> rc]
 LocalErr(reason) == [NoErr EXCEPT !.haserr = TRUE, !.reason = reason]
 
-CmdEv(v, mm, rr, params) ==
-  [ev |-> "cmd", verb |-> v, m |-> mm, r |-> rr, params |-> params, enc |-> FALSE, cred |-> FALSE, mech |-> ""]
+-----------------------------------------------------------------------------
+(* events *)
 
-ReplyEv(v, ch, k, caps) ==
-  IF ch.c = "drop" THEN [ev |-> "drop"]
-  ELSE [ev |-> "reply",
-        code |-> IF ch.c = "ok" THEN OkCode(v) ELSE CodeOf(ch.c, k),
-        cls  |-> ch.c,
-        esc  |-> IF ch.c # "ok" /\ ch.sh = "lead" THEN EscOf(ch.c, k) ELSE "",
-        caps |-> caps]
+CmdEv(v, mm, rr, params, cred, mech) ==
+  [ev |-> "cmd", verb |-> v, m |-> mm, r |-> rr, params |-> params, enc |-> cl.tls, cred |-> cred, mech |-> mech]
 
-(* client sends a command line; a pending open dot-writer is terminated    *)
-(* first (textproto closeDot) - only reachable under DEV_ImplicitDot       *)
+ReplyEv(v, ch, k, caps, code) ==
+  CASE ch.c = "drop"  -> [ev |-> "drop"]
+    [] ch.c = "stall" -> [ev |-> "stall"]
+    [] OTHER -> [ev |-> "reply",
+                 code |-> IF ch.c = "ok" THEN code ELSE CodeOf(ch.c, k),
+                 cls  |-> ch.c,
+                 esc  |-> IF ch.c \in {"t4", "p5"} /\ ch.sh = "lead" THEN EscOf(ch.c, k) ELSE "",
+                 caps |-> caps]
+
+(* debug log records (only when the scenario switches debug logging on):   *)
+(* inside the redaction window the payload is replaced                     *)
+LogEvs(cred, code) ==
+  IF ~cfg.debug THEN <<>>
+  ELSE LET red == cl.authWin IN
+       << [ev |-> "log", dir |-> "c2s", leak |-> (cred /\ ~red), post |-> cl.authOver, verbatim |-> ~red] >>
+LogReply(code, ch) ==
+  IF ~cfg.debug \/ Lost(ch.c) THEN <<>>
+  ELSE << [ev |-> "log", dir |-> "s2c", leak |-> FALSE, post |-> cl.authOver,
+           verbatim |-> ~(cl.authWin /\ code >= 300 /\ code <= 400)] >>
+
+RECURSIVE ObsAll(_, _)
+ObsAll(o, es) == IF es = <<>> THEN o ELSE ObsAll(Observe(o, Head(es)), Tail(es))
+
+(* a pending open dot-writer is terminated by the next command line        *)
+(* (textproto closeDot) - only reachable under DEV_ImplicitDot             *)
 ImplicitDot(o) ==
-  IF dotOpen > 0 THEN Observe(Observe(o, [ev |-> "eod", m |-> dotOpen, content |-> "prefix"]),
-                          [ev |-> "reply", code |-> 250, cls |-> "ok", esc |-> "", caps |-> <<>>])
+  IF cl.dotOpen > 0
+  THEN ObsAll(o, << [ev |-> "eod", m |-> cl.dotOpen, content |-> "prefix"],
+                    [ev |-> "reply", code |-> 250, cls |-> "ok", esc |-> "", caps |-> <<>>] >>)
   ELSE o
 
-(* One command/reply exchange with environment choice ch.  The `wrong`     *)
-(* reply consumed after an implicit dot is not modelled further: the       *)
-(* observer already flags the committed prefix.                            *)
-Xchg(v, mm, rr, params, ch, caps) ==
-  /\ obs' = Observe(Observe(ImplicitDot(obs), CmdEv(v, mm, rr, params)), ReplyEv(v, ch, nfault + 1, caps))
-  /\ dotOpen' = 0
-  /\ pred' = Append(pred, ProjOf(ImplicitDot(obs), CmdEv(v, mm, rr, params)))
-  /\ IF ch.c = "ok" THEN UNCHANGED <<budget, nfault, hist>>
-     ELSE /\ budget' = budget - 1 /\ nfault' = nfault + 1
-          /\ hist' = Append(hist, [v |-> v, m |-> mm, r |-> rr, c |-> ch.c, sh |-> ch.sh])
+(* One command/reply exchange with environment choice ch: the observer and *)
+(* the environment bookkeeping after it.                                   *)
+XO(o0, v, mm, rr, params, cred, mech, ch, caps, okcode) ==
+  LET ce == CmdEv(v, mm, rr, params, cred, mech)
+      o1 == ImplicitDot(o0)
+      code == IF ch.c = "ok" THEN okcode ELSE CodeOf(ch.c, env.nfault + 1)
+  IN [obs |-> ObsAll(o1, LogEvs(cred, 0) \o <<ce, ReplyEv(v, ch, env.nfault + 1, caps, okcode)>> \o LogReply(code, ch)),
+      env |-> [env EXCEPT
+                 !.pred = Append(@, ProjOf(o1, ce)),
+                 !.budget = IF ch.c = "ok" THEN @ ELSE @ - 1,
+                 !.nfault = IF ch.c = "ok" THEN @ ELSE @ + 1,
+                 !.hist = IF ch.c = "ok" THEN @
+                          ELSE Append(@, [v |-> v, m |-> ProjOf(o1, ce).m, r |-> ProjOf(o1, ce).r, c |-> ch.c, sh |-> ch.sh])]]
+
+X(v, mm, rr, params, cred, mech, ch, caps, okcode) == XO(obs, v, mm, rr, params, cred, mech, ch, caps, okcode)
+Plain(v, mm, rr, params, ch) == X(v, mm, rr, params, FALSE, "", ch, <<>>, OkCode(v))
 
 Params(v) ==
   IF v = "MAIL" THEN
-        (IF "8BITMIME" \in ext THEN <<"BODY">> ELSE <<>>)
-     \o (IF "SMTPUTF8" \in ext THEN <<"SMTPUTF8">> ELSE <<>>)
-     \o (IF "DSN" \in ext /\ cfg.dsn \in {"ret", "both"} THEN <<"RET">> ELSE <<>>)
+        (IF "8BITMIME" \in cl.ext THEN <<"BODY">> ELSE <<>>)
+     \o (IF "SMTPUTF8" \in cl.ext THEN <<"SMTPUTF8">> ELSE <<>>)
+     \o (IF "DSN" \in cl.ext /\ cfg.dsn \in {"ret", "both"} THEN <<"RET">> ELSE <<>>)
   ELSE IF v = "RCPT" THEN
-        (IF "DSN" \in ext /\ cfg.dsn \in {"notify", "both"} THEN <<"NOTIFY">> ELSE <<>>)
+        (IF "DSN" \in cl.ext /\ cfg.dsn \in {"notify", "both"} THEN <<"NOTIFY">> ELSE <<>>)
   ELSE <<>>
 
-CloseConn(o) == Observe(o, [ev |-> "cclose"])
-Quiet == UNCHANGED <<budget, nfault, hist, dotOpen, pred>>
+CloseConn(o) == IF o.conn = "open" THEN Observe(o, [ev |-> "cclose"]) ELSE o
+SetDl(o, a)  == Observe(o, [ev |-> "setdl", armed |-> a])
+
+(* A stalled server is survived only when a deadline is armed: otherwise   *)
+(* the client blocks for ever (pc = "blocked" has no successor).           *)
+Blocks(ch) == ch.c = "stall" /\ ~cl.armed
+
+-----------------------------------------------------------------------------
+(* authentication mechanisms *)
+
+MechOf(t) == CASE t \in {"PLAIN", "PLAIN-NOENC"} -> "PLAIN"
+               [] t \in {"LOGIN", "LOGIN-NOENC"} -> "LOGIN"
+               [] OTHER -> t
+NoEncType(t) == t \in {"PLAIN-NOENC", "LOGIN-NOENC"}
+IsPlus(mch)  == mch \in {"SCRAM-SHA-1-PLUS", "SCRAM-SHA-256-PLUS"}
+(* client.go:1251: support is tested with strings.Contains on the advertised list *)
+MechNames(mch) == CASE mch = "SCRAM-SHA-1"   -> {"SCRAM-SHA-1", "SCRAM-SHA-1-PLUS"}
+                   [] mch = "SCRAM-SHA-256" -> {"SCRAM-SHA-256", "SCRAM-SHA-256-PLUS"}
+                   [] OTHER -> {mch}
+Supported(mch, list) == MechNames(mch) \cap list # {}
+PreferEnc   == <<"SCRAM-SHA-256-PLUS", "SCRAM-SHA-256", "SCRAM-SHA-1-PLUS", "SCRAM-SHA-1", "CRAM-MD5", "PLAIN", "LOGIN">>
+PreferClear == <<"SCRAM-SHA-256", "SCRAM-SHA-1", "CRAM-MD5">>
+Discover(list, enc) ==
+  LET pl == IF enc THEN PreferEnc ELSE PreferClear
+      hits == {i \in DOMAIN pl : pl[i] \in list}
+  IN IF hits = {} THEN "none" ELSE pl[CHOOSE i \in hits : \A j \in hits : i <= j]
+(* number of 334 challenges of an honest exchange *)
+Steps(mch) == CASE mch \in {"PLAIN", "XOAUTH2"} -> 0 [] mch = "LOGIN" -> 2 [] mch = "CRAM-MD5" -> 1 [] OTHER -> 3
+(* does message j of the exchange (0 = the AUTH command) carry the password / token? *)
+Reveals(mch, j) == (mch \in {"PLAIN", "XOAUTH2"} /\ j = 0) \/ (mch = "LOGIN" /\ j = 2)
 
 -----------------------------------------------------------------------------
 Cfgs ==
   {[op |-> OP, nr |-> nr, enc8 |-> e8, rf |-> rf, caps |-> cs, dsn |-> d, nonoop |-> nn, cs |-> rot,
-    policy |-> "none", authtype |-> "NOAUTH", noenc |-> FALSE, hostkind |-> "other", logauth |-> FALSE] :
+    policy |-> pol, authtype |-> at, noenc |-> NoEncType(at), hostkind |-> hk, logauth |-> la,
+    debug |-> (at # "NOAUTH"), starttls |-> st, authlist |-> al, hs |-> hs, caps2 |-> c2] :
      nr \in [1..N -> 1..MAXR], e8 \in [1..N -> ENC8], rf \in [1..N -> {"ok"} \cup RENDERKINDS],
-     cs \in CAPSETS, d \in DSNS, nn \in NONOOP, rot \in CODESETS}
+     cs \in CAPSETS, d \in DSNS, nn \in NONOOP, rot \in CODESETS, pol \in POLICIES, at \in AUTHTYPES,
+     hk \in HOSTKINDS, la \in LOGAUTH, st \in STARTTLSADV, al \in AUTHLISTS, hs \in HANDSHAKES, c2 \in CAPS2}
+
+(* what the server puts into an EHLO reply *)
+Advertised(enc) ==
+  (IF enc THEN cfg.caps2 ELSE cfg.caps)
+    \cup (IF cfg.starttls /\ ~enc THEN {"STARTTLS"} ELSE {})
+    \cup (IF cfg.authlist # {} THEN {"AUTH"} ELSE {})
 
 Init ==
   /\ cfg \in Cfgs
-  /\ pc = "dial" /\ m = 1 /\ r = 1 /\ ext = {} /\ dead = FALSE /\ rej = <<>>
-  /\ dl = [i \in 1..N |-> FALSE] /\ se = [i \in 1..N |-> NoErr] /\ top = ""
-  /\ budget = BUDGET /\ nfault = 0 /\ dotOpen = 0
+  /\ cl = [pc |-> "dial", m |-> 1, r |-> 1, ext |-> {}, dead |-> FALSE, rej |-> <<>>,
+           dl |-> [i \in 1..N |-> FALSE], se |-> [i \in 1..N |-> NoErr], top |-> "",
+           dotOpen |-> 0, tls |-> FALSE, armed |-> FALSE, authWin |-> FALSE, authOver |-> FALSE,
+           mech |-> "", astep |-> 0]
+  /\ env = [budget |-> BUDGET, nfault |-> 0, hist |-> <<>>, pred |-> <<>>]
   /\ obs = Observe(InitObs, [ev |-> "begin", cfg |-> cfg])
-  /\ hist = <<>> /\ pred = <<>>
 
-DialFaults == OP # "Send"     \* in Send mode the dial is the clean prefix
-DialChoices == IF DialFaults THEN EnvChoices ELSE {[c |-> "ok", sh |-> "none"]}
+Goto(p) == cl' = [cl EXCEPT !.pc = p]
+DialOp  == IF OP \in {"Send", "Reset"} THEN "Dial" ELSE OP
+
+(* a failed dial step: the transport is released before the error returns *)
+DialFail(o) == IF DEV_LeakOnDialError THEN o ELSE CloseConn(o)
 
 -----------------------------------------------------------------------------
 (* dial phase: client.go:1003 DialToSMTPClientWithContext                  *)
 
 DialConnect ==
-  /\ pc = "dial"
-  /\ obs' = Observe(Observe(obs, [ev |-> "call", op |-> IF OP = "Send" THEN "Dial" ELSE OP]), [ev |-> "open"])
-  /\ pc' = "greeting"
-  /\ Quiet /\ UNCHANGED <<m, r, ext, dead, rej, dl, se, top, cfg>>
+  /\ cl.pc = "dial"
+  /\ LET o1 == ObsAll(obs, << [ev |-> "call", op |-> DialOp], [ev |-> "open"] >>) IN
+     IF DEV_NoDeadlineInDial THEN obs' = o1 /\ Goto("greeting")
+     ELSE obs' = SetDl(o1, TRUE) /\ cl' = [cl EXCEPT !.pc = "greeting", !.armed = TRUE]
+  /\ UNCHANGED <<env, cfg>>
 
 (* smtp.NewClient reads the greeting and closes the connection itself when *)
 (* it is not a 220                                                         *)
 ReadGreeting ==
-  /\ pc = "greeting"
+  /\ cl.pc = "greeting"
   /\ \E ch \in DialChoices :
-       LET g == IF ch.c = "drop" THEN [ev |-> "drop"]
-                ELSE [ev |-> "greet", cls |-> ch.c, early |-> FALSE,
-                      code |-> IF ch.c = "ok" THEN 220 ELSE CodeOf(ch.c, nfault + 1)] IN
-       /\ IF ch.c = "ok" THEN /\ obs' = Observe(obs, g) /\ pc' = "ehlo"
-                              /\ UNCHANGED <<budget, nfault, hist, top, dead>>
-          ELSE /\ obs' = CloseConn(Observe(obs, g)) /\ pc' = "dialRet" /\ top' = "dial" /\ dead' = TRUE
-               /\ budget' = budget - 1 /\ nfault' = nfault + 1
-               /\ hist' = Append(hist, [v |-> "GREET", m |-> 0, r |-> 0, c |-> ch.c, sh |-> ch.sh])
-  /\ UNCHANGED <<m, r, ext, rej, dl, se, cfg, dotOpen, pred>>
+       LET g == CASE ch.c = "drop" -> [ev |-> "drop"] [] ch.c = "stall" -> [ev |-> "stall"]
+                  [] OTHER -> [ev |-> "greet", cls |-> ch.c, early |-> FALSE,
+                               code |-> IF ch.c = "ok" THEN 220 ELSE CodeOf(ch.c, env.nfault + 1)] IN
+       IF ch.c = "ok" THEN obs' = Observe(obs, g) /\ Goto("ehlo") /\ UNCHANGED env
+       ELSE /\ env' = [env EXCEPT !.budget = @ - 1, !.nfault = @ + 1,
+                                  !.hist = Append(@, [v |-> "GREET", m |-> 0, r |-> 0, c |-> ch.c, sh |-> ch.sh])]
+            /\ IF Blocks(ch) THEN obs' = Observe(obs, g) /\ Goto("blocked")
+               ELSE /\ obs' = CloseConn(Observe(obs, g))
+                    /\ cl' = [cl EXCEPT !.pc = "dialRet", !.top = "dial", !.dead = TRUE]
+  /\ UNCHANGED cfg
 
 CmdEhlo ==
-  /\ pc = "ehlo"
+  /\ cl.pc = "ehlo"
   /\ \E ch \in DialChoices :
-       /\ Xchg("EHLO", 0, 1, <<>>, ch, IF ch.c = "ok" THEN SetToSeq(cfg.caps) ELSE <<>>)
-       /\ IF ch.c = "ok" THEN ext' = cfg.caps /\ pc' = "dialOK" /\ UNCHANGED <<dead, top>>
-          ELSE IF ch.c = "drop" THEN /\ dead' = TRUE /\ pc' = "helo" /\ UNCHANGED <<ext, top>>
-          ELSE pc' = "helo" /\ UNCHANGED <<ext, dead, top>>
-  /\ UNCHANGED <<m, r, rej, dl, se, cfg>>
+       LET adv == Advertised(FALSE)
+           x == X("EHLO", 0, 1, <<>>, FALSE, "", ch, IF ch.c = "ok" THEN SetToSeq(adv) ELSE <<>>, 250) IN
+       /\ obs' = x.obs /\ env' = x.env
+       /\ IF Blocks(ch) THEN Goto("blocked")
+          ELSE IF ch.c = "ok" THEN cl' = [cl EXCEPT !.pc = "policy", !.ext = adv]
+          ELSE cl' = [cl EXCEPT !.pc = "helo", !.dead = Lost(ch.c)]
+  /\ UNCHANGED cfg
 
 (* smtp.go:148 hello(): any EHLO error -> HELO; only the HELO error counts *)
 CmdHelo ==
-  /\ pc = "helo"
-  /\ IF dead
-     THEN /\ obs' = IF DEV_LeakOnDialError THEN obs ELSE CloseConn(obs)
-          /\ pc' = "dialRet" /\ top' = "dial" /\ Quiet /\ UNCHANGED <<ext, dead>>
+  /\ cl.pc = "helo"
+  /\ IF cl.dead
+     THEN obs' = DialFail(obs) /\ cl' = [cl EXCEPT !.pc = "dialRet", !.top = "dial"] /\ UNCHANGED env
      ELSE \E ch \in DialChoices :
-          IF ch.c = "ok"
-          THEN /\ Xchg("HELO", 0, 1, <<>>, ch, <<>>) /\ ext' = {} /\ pc' = "dialOK" /\ UNCHANGED <<dead, top>>
-          ELSE /\ LET o2 == Observe(Observe(obs, CmdEv("HELO", 0, 1, <<>>)), ReplyEv("HELO", ch, nfault + 1, <<>>))
-                  IN obs' = IF DEV_LeakOnDialError THEN o2 ELSE CloseConn(o2)
-               /\ pred' = Append(pred, ProjOf(obs, CmdEv("HELO", 0, 1, <<>>)))
-               /\ budget' = budget - 1 /\ nfault' = nfault + 1
-               /\ hist' = Append(hist, [v |-> "HELO", m |-> 0, r |-> 1, c |-> ch.c, sh |-> ch.sh])
-               /\ dead' = TRUE /\ pc' = "dialRet" /\ top' = "dial" /\ UNCHANGED <<ext, dotOpen>>
-  /\ UNCHANGED <<m, r, rej, dl, se, cfg>>
+          LET x == Plain("HELO", 0, 1, <<>>, ch) IN
+          /\ env' = x.env
+          /\ IF Blocks(ch) THEN obs' = x.obs /\ Goto("blocked")
+             ELSE IF ch.c = "ok" THEN obs' = x.obs /\ cl' = [cl EXCEPT !.pc = "policy", !.ext = {}]
+             ELSE obs' = DialFail(x.obs) /\ cl' = [cl EXCEPT !.pc = "dialRet", !.top = "dial", !.dead = TRUE]
+  /\ UNCHANGED cfg
 
-(* TLS policy and AUTH are refined in SessionDial.tla; here: none / NOAUTH *)
+(* client.go:1545 tls(): policy decision *)
+PolicyDecision ==
+  /\ cl.pc = "policy"
+  /\ UNCHANGED <<env, cfg>>
+  /\ CASE cfg.policy = "none" -> Goto("authSel") /\ obs' = obs
+       [] cfg.policy = "mandatory" /\ "STARTTLS" \notin cl.ext ->
+              obs' = DialFail(obs) /\ cl' = [cl EXCEPT !.pc = "dialRet", !.top = "dial", !.dead = TRUE]
+       [] cfg.policy = "opportunistic" /\ "STARTTLS" \notin cl.ext -> Goto("authSel") /\ obs' = obs
+       [] OTHER -> Goto("starttls") /\ obs' = obs
+
+(* smtp.go:224 StartTLS: STARTTLS expecting 220 *)
+CmdStartTLS ==
+  /\ cl.pc = "starttls"
+  /\ \E ch \in DialChoices :
+       LET x == Plain("STARTTLS", 0, 0, <<>>, ch) IN
+       /\ env' = x.env
+       /\ IF Blocks(ch) THEN obs' = x.obs /\ Goto("blocked")
+          ELSE IF ch.c = "ok" THEN obs' = x.obs /\ Goto("handshake")
+          ELSE obs' = DialFail(x.obs) /\ cl' = [cl EXCEPT !.pc = "dialRet", !.top = "dial", !.dead = TRUE]
+  /\ UNCHANGED cfg
+
+(* the handshake runs on the first write after the wrap (the EHLO); its    *)
+(* outcome is a scenario parameter (certificate valid for the host, wrong  *)
+(* name, untrusted issuer, garbage, stall)                                 *)
+Handshake ==
+  /\ cl.pc = "handshake"
+  /\ UNCHANGED <<env, cfg>>
+  /\ IF cfg.hs = "ok"
+     THEN obs' = Observe(obs, [ev |-> "tls", ok |-> TRUE]) /\ cl' = [cl EXCEPT !.pc = "ehlo2", !.tls = TRUE]
+     ELSE IF cfg.hs = "stall" /\ ~cl.armed
+     THEN obs' = Observe(obs, [ev |-> "stall"]) /\ Goto("blocked")
+     ELSE /\ obs' = DialFail(Observe(obs, IF cfg.hs = "stall" THEN [ev |-> "stall"] ELSE [ev |-> "tls", ok |-> FALSE]))
+          /\ cl' = [cl EXCEPT !.pc = "dialRet", !.top = "dial", !.dead = TRUE]
+
+CmdEhloAfterTLS ==
+  /\ cl.pc = "ehlo2"
+  /\ \E ch \in DialChoices :
+       LET adv == Advertised(TRUE)
+           x == X("EHLO", 0, 2, <<>>, FALSE, "", ch, IF ch.c = "ok" THEN SetToSeq(adv) ELSE <<>>, 250) IN
+       /\ env' = x.env
+       /\ IF Blocks(ch) THEN obs' = x.obs /\ Goto("blocked")
+          ELSE IF ch.c = "ok" THEN obs' = x.obs /\ cl' = [cl EXCEPT !.pc = "authSel", !.ext = adv]
+          ELSE obs' = DialFail(x.obs) /\ cl' = [cl EXCEPT !.pc = "dialRet", !.top = "dial", !.dead = TRUE]
+  /\ UNCHANGED cfg
+
+(* client.go:1231 auth(): mechanism selection *)
+AuthSelect ==
+  /\ cl.pc = "authSel"
+  /\ UNCHANGED <<env, cfg>>
+  /\ LET t == cfg.authtype
+         fail == obs' = DialFail(obs) /\ cl' = [cl EXCEPT !.pc = "dialRet", !.top = "dial", !.dead = TRUE]
+         mch == IF t = "AUTODISCOVER" THEN Discover(cfg.authlist, cl.tls) ELSE MechOf(t) IN
+     IF t = "NOAUTH" THEN Goto("dialOK") /\ obs' = obs
+     ELSE IF "AUTH" \notin cl.ext \/ mch = "none" \/ ~Supported(mch, cfg.authlist) \/ (IsPlus(mch) /\ ~cl.tls)
+     THEN fail
+     ELSE obs' = obs /\ cl' = [cl EXCEPT !.pc = "authStart", !.mech = mch]
+
+(* smtp.go:275 Auth: Start() of PLAIN / LOGIN refuses to run in clear      *)
+(* unless *-NOENC or a localhost server; a refusal ends with QUIT          *)
+AuthStart ==
+  /\ cl.pc = "authStart"
+  /\ UNCHANGED <<env, cfg>>
+  /\ obs' = obs
+  /\ IF cl.mech \in {"PLAIN", "LOGIN"} /\ ~cfg.noenc /\ ~cl.tls /\ cfg.hostkind # "localhost"
+     THEN cl' = [cl EXCEPT !.pc = "authQuit", !.authWin = ~cfg.logauth]
+     ELSE cl' = [cl EXCEPT !.pc = "authMsg", !.astep = 0, !.authWin = ~cfg.logauth]
+
+(* message j of the exchange: the AUTH command (j = 0) or a response; the  *)
+(* honest server continues with 334 while j < Steps(mech), then sends 235  *)
+AuthMsg ==
+  /\ cl.pc = "authMsg"
+  /\ \E ch \in AuthChoices :
+       LET j == cl.astep
+           honest == IF j < Steps(cl.mech) THEN 334 ELSE 235
+           x == X(IF j = 0 THEN "AUTH" ELSE "AUTHRESP", 0, j, <<>>, Reveals(cl.mech, j),
+                  IF j = 0 THEN cl.mech ELSE "", ch, <<>>, honest) IN
+       /\ obs' = x.obs /\ env' = x.env
+       /\ IF Blocks(ch) THEN Goto("blocked")
+          ELSE IF ch.c = "ok" /\ honest = 334 THEN cl' = [cl EXCEPT !.astep = j + 1]
+          ELSE IF ch.c = "ok" THEN cl' = [cl EXCEPT !.pc = "dialOK", !.authWin = DEV_WindowStaysOpen /\ @, !.authOver = TRUE]
+          ELSE IF Lost(ch.c) THEN cl' = [cl EXCEPT !.pc = "authQuit", !.dead = TRUE]
+          ELSE cl' = [cl EXCEPT !.pc = IF cl.mech = "XOAUTH2" THEN "authQuit" ELSE "authAbort"]
+  /\ UNCHANGED cfg
+
+(* "*" aborts the exchange (expects 501); not sent for XOAUTH2 *)
+AuthAbort ==
+  /\ cl.pc = "authAbort"
+  /\ \E ch \in DialChoices :
+       LET x == X("ABORT", 0, 0, <<>>, FALSE, "", ch, <<>>, 501) IN
+       /\ obs' = x.obs /\ env' = x.env
+       /\ IF Blocks(ch) THEN Goto("blocked")
+          ELSE cl' = [cl EXCEPT !.pc = "authQuit", !.dead = Lost(ch.c)]
+  /\ UNCHANGED cfg
+
+(* Quit() inside Auth; whatever it yields the dial fails and the transport is released *)
+AuthQuit ==
+  /\ cl.pc = "authQuit"
+  /\ IF cl.dead
+     THEN /\ obs' = DialFail(obs) /\ UNCHANGED env
+          /\ cl' = [cl EXCEPT !.pc = "dialRet", !.top = "dial", !.authWin = FALSE]
+     ELSE \E ch \in DialChoices :
+          LET x == Plain("QUIT", 0, 0, <<>>, ch) IN
+          /\ env' = x.env
+          /\ IF Blocks(ch) THEN obs' = x.obs /\ Goto("blocked")
+             ELSE /\ obs' = IF ch.c = "ok" THEN CloseConn(x.obs) ELSE DialFail(x.obs)
+                  /\ cl' = [cl EXCEPT !.pc = "dialRet", !.top = "dial", !.dead = TRUE, !.authWin = FALSE]
+  /\ UNCHANGED cfg
+
 DialOK ==
-  /\ pc = "dialOK"
-  /\ IF OP = "DialAndSend" THEN pc' = "sendBegin" /\ obs' = obs
-     ELSE /\ obs' = Observe(obs, [ev |-> "ret", op |-> "Dial", err |-> FALSE, elapsed |-> "within"])
-          /\ pc' = IF OP = "Send" THEN "sendBegin" ELSE "quit"
-  /\ Quiet /\ UNCHANGED <<m, r, ext, dead, rej, dl, se, top, cfg>>
+  /\ cl.pc = "dialOK"
+  /\ UNCHANGED <<env, cfg>>
+  /\ LET o1 == IF cl.armed THEN SetDl(obs, FALSE) ELSE obs IN      \* the dial deadline is cleared
+     IF OP = "DialAndSend" THEN obs' = o1 /\ cl' = [cl EXCEPT !.pc = "sendBegin", !.armed = FALSE]
+     ELSE /\ obs' = Observe(o1, [ev |-> "ret", op |-> "Dial", err |-> FALSE, elapsed |-> "within"])
+          /\ cl' = [cl EXCEPT !.pc = CASE OP = "Send" -> "sendBegin" [] OP = "Reset" -> "resetBegin" [] OTHER -> "quit",
+                               !.armed = FALSE]
+
+RetEv(op) ==
+  LET failed == {i \in 1..N : cl.se[i].haserr} IN
+  [ev |-> "ret", op |-> op, err |-> (cl.top # "" \/ failed # {}), elapsed |-> "within", top |-> cl.top,
+   nerrs |-> IF cl.top # "" THEN 1 ELSE Cardinality(failed),
+   msgs |-> [i \in 1..N |-> [delivered |-> cl.dl[i], haserr |-> cl.se[i].haserr, reason |-> cl.se[i].reason,
+                             code |-> cl.se[i].code, temp |-> cl.se[i].temp, esc |-> cl.se[i].esc,
+                             rcpts |-> cl.se[i].rcpts]]]
 
 DialRet ==     \* failed dial
-  /\ pc = "dialRet"
-  /\ obs' = Observe(obs, [ev |-> "ret", op |-> IF OP = "Send" THEN "Dial" ELSE OP, err |-> TRUE,
-                          elapsed |-> "within"])
-  /\ pc' = "done"
-  /\ Quiet /\ UNCHANGED <<m, r, ext, dead, rej, dl, se, top, cfg>>
+  /\ cl.pc = "dialRet"
+  /\ obs' = ObsAll(obs, << IF OP = "DialAndSend" THEN RetEv(OP)
+                           ELSE [ev |-> "ret", op |-> DialOp, err |-> TRUE, elapsed |-> "within"], [ev |-> "end"] >>)
+  /\ Goto("done")
+  /\ UNCHANGED <<env, cfg>>
 
 -----------------------------------------------------------------------------
 (* send phase: client_120.go:34 SendWithSMTPClient, client.go:1368          *)
 
+(* checkConn: extend the deadline, then NOOP *)
 SendBegin ==
-  /\ pc = "sendBegin"
-  /\ obs' = IF OP = "Send" THEN Observe(obs, [ev |-> "call", op |-> "Send"]) ELSE obs
-  /\ pc' = IF cfg.nonoop THEN "msgStart" ELSE "noop0"
-  /\ Quiet /\ UNCHANGED <<m, r, ext, dead, rej, dl, se, top, cfg>>
+  /\ cl.pc = "sendBegin"
+  /\ UNCHANGED <<env, cfg>>
+  /\ LET o1 == IF OP = "Send" THEN Observe(obs, [ev |-> "call", op |-> "Send"]) ELSE obs
+         nxt == IF cfg.nonoop THEN "msgStart" ELSE "noop0" IN
+     IF DEV_NoopBeforeDeadline THEN obs' = o1 /\ Goto(nxt)
+     ELSE obs' = SetDl(o1, TRUE) /\ cl' = [cl EXCEPT !.pc = nxt, !.armed = TRUE]
 
-(* checkConn: NOOP; failure = ErrConnCheck, nothing is attempted *)
+(* NOOP failure = ErrConnCheck, nothing is attempted *)
 Noop0 ==
-  /\ pc = "noop0"
+  /\ cl.pc = "noop0"
   /\ \E ch \in EnvChoices :
-       /\ Xchg("NOOP", 0, 0, <<>>, ch, <<>>)
-       /\ IF ch.c = "ok" THEN pc' = "msgStart" /\ UNCHANGED <<top, dead>>
-          ELSE pc' = "sendRet" /\ top' = "conncheck" /\ dead' = (dead \/ ch.c = "drop")
-  /\ UNCHANGED <<m, r, ext, rej, dl, se, cfg>>
+       LET x == Plain("NOOP", 0, 0, <<>>, ch) IN
+       /\ obs' = IF DEV_NoopBeforeDeadline /\ ch.c = "ok" THEN SetDl(x.obs, TRUE) ELSE x.obs
+       /\ env' = x.env
+       /\ IF Blocks(ch) THEN Goto("blocked")
+          ELSE IF ch.c = "ok" THEN cl' = [cl EXCEPT !.pc = "msgStart", !.armed = TRUE]
+          ELSE cl' = [cl EXCEPT !.pc = "sendRet", !.top = "conncheck", !.dead = @ \/ Lost(ch.c)]
+  /\ UNCHANGED cfg
 
 MsgStart ==
-  /\ pc = "msgStart"
-  /\ IF m > N THEN pc' = "sendRet" /\ UNCHANGED <<se, m>>
-     ELSE IF cfg.enc8[m] /\ "8BITMIME" \notin ext
-          THEN se' = [se EXCEPT ![m] = LocalErr("noenc")] /\ m' = m + 1 /\ pc' = "msgStart"
-          ELSE pc' = "mail" /\ UNCHANGED <<se, m>>
-  /\ Quiet /\ UNCHANGED <<r, ext, dead, rej, dl, top, cfg, obs>>
+  /\ cl.pc = "msgStart"
+  /\ UNCHANGED <<env, cfg, obs>>
+  /\ IF cl.m > N THEN Goto("sendRet")
+     ELSE IF cfg.enc8[cl.m] /\ "8BITMIME" \notin cl.ext
+          THEN cl' = [cl EXCEPT !.se[cl.m] = LocalErr("noenc"), !.m = @ + 1]
+          ELSE Goto("mail")
 
 (* a command on a connection that is gone fails locally: nothing on the wire *)
 DeadStep(reason) ==
-  /\ se' = [se EXCEPT ![m] = IF @.haserr THEN @ ELSE LocalErr(reason)]
-  /\ pc' = "nextMsg"
-  /\ Quiet /\ UNCHANGED <<m, r, ext, dead, rej, dl, top, cfg, obs>>
+  /\ cl' = [cl EXCEPT !.se[cl.m] = IF @.haserr THEN @ ELSE LocalErr(reason), !.pc = "nextMsg"]
+  /\ UNCHANGED <<env, cfg, obs>>
 
 CmdMail ==
-  /\ pc = "mail"
-  /\ IF dead THEN DeadStep("mail") ELSE
+  /\ cl.pc = "mail"
+  /\ IF cl.dead THEN DeadStep("mail") ELSE
      \E ch \in EnvChoices :
-       /\ Xchg("MAIL", m, 0, Params("MAIL"), ch, <<>>)
-       /\ IF ch.c = "ok" THEN pc' = "rcpt" /\ r' = 1 /\ rej' = <<>> /\ UNCHANGED <<se, dead>>
-          ELSE /\ se' = [se EXCEPT ![m] = ErrOf("mail", ch, nfault + 1, <<>>)]
-               /\ dead' = (ch.c = "drop") /\ pc' = "failRset" /\ UNCHANGED <<r, rej>>
-       /\ UNCHANGED <<m, ext, dl, top, cfg>>
+       LET x == Plain("MAIL", cl.m, 0, Params("MAIL"), ch) IN
+       /\ obs' = x.obs /\ env' = x.env /\ UNCHANGED cfg
+       /\ IF Blocks(ch) THEN Goto("blocked")
+          ELSE IF ch.c = "ok" THEN cl' = [cl EXCEPT !.pc = "rcpt", !.r = 1, !.rej = <<>>]
+          ELSE cl' = [cl EXCEPT !.se[cl.m] = ErrOf("mail", ch, env.nfault + 1, <<>>),
+                                !.dead = Lost(ch.c), !.pc = "failRset"]
 
 (* every recipient is tried; the last rejection decides code and class *)
 CmdRcpt ==
-  /\ pc = "rcpt"
-  /\ IF dead
-     THEN /\ se' = [se EXCEPT ![m] = [LocalErr("rcpt") EXCEPT !.rcpts = Append(rej, r)]]
-          /\ rej' = Append(rej, r)
-          /\ IF r < cfg.nr[m] THEN r' = r + 1 /\ pc' = "rcpt" ELSE r' = r /\ pc' = "failRset"
-          /\ Quiet /\ UNCHANGED <<m, ext, dead, dl, top, cfg, obs>>
+  /\ cl.pc = "rcpt"
+  /\ LET last == cl.r >= cfg.nr[cl.m] IN
+     IF cl.dead
+     THEN /\ cl' = [cl EXCEPT !.se[cl.m] = [LocalErr("rcpt") EXCEPT !.rcpts = Append(cl.rej, cl.r)],
+                              !.rej = Append(@, cl.r), !.r = IF last THEN @ ELSE @ + 1,
+                              !.pc = IF last THEN "failRset" ELSE "rcpt"]
+          /\ UNCHANGED <<env, cfg, obs>>
      ELSE \E ch \in EnvChoices :
-       /\ Xchg("RCPT", m, r, Params("RCPT"), ch, <<>>)
-       /\ IF ch.c = "ok" THEN UNCHANGED <<se, rej, dead>>
-          ELSE /\ rej' = Append(rej, r)
-               /\ se' = [se EXCEPT ![m] = ErrOf("rcpt", ch, nfault + 1, Append(rej, r))]
-               /\ dead' = (ch.c = "drop")
-       /\ IF r < cfg.nr[m] THEN r' = r + 1 /\ pc' = "rcpt"
-          ELSE r' = r /\ pc' = IF rej' = <<>> THEN "data" ELSE "failRset"
-       /\ UNCHANGED <<m, ext, dl, top, cfg>>
+       LET x == Plain("RCPT", cl.m, cl.r, Params("RCPT"), ch)
+           rej2 == IF ch.c = "ok" THEN cl.rej ELSE Append(cl.rej, cl.r) IN
+       /\ obs' = x.obs /\ env' = x.env /\ UNCHANGED cfg
+       /\ IF Blocks(ch) THEN Goto("blocked")
+          ELSE cl' = [cl EXCEPT
+                        !.rej = rej2,
+                        !.se[cl.m] = IF ch.c = "ok" THEN @ ELSE ErrOf("rcpt", ch, env.nfault + 1, rej2),
+                        !.dead = Lost(ch.c),
+                        !.r = IF last THEN @ ELSE @ + 1,
+                        !.pc = IF ~last THEN "rcpt" ELSE IF rej2 = <<>> THEN "data" ELSE "failRset"]
 
 CmdData ==
-  /\ pc = "data"
-  /\ IF dead THEN DeadStep("data") ELSE
+  /\ cl.pc = "data"
+  /\ IF cl.dead THEN DeadStep("data") ELSE
      \E ch \in EnvChoices :
-       /\ Xchg("DATA", m, 0, <<>>, ch, <<>>)
-       /\ IF ch.c = "ok" THEN pc' = "content" /\ UNCHANGED <<se, dead>>
-          ELSE /\ se' = [se EXCEPT ![m] = ErrOf("data", ch, nfault + 1, <<>>)]
-               /\ dead' = (ch.c = "drop")
-               /\ pc' = IF DEV_NoRsetAfterDataReject THEN "nextMsg" ELSE "failRset"
-       /\ UNCHANGED <<m, r, ext, rej, dl, top, cfg>>
+       LET x == Plain("DATA", cl.m, 0, <<>>, ch) IN
+       /\ obs' = x.obs /\ env' = x.env /\ UNCHANGED cfg
+       /\ IF Blocks(ch) THEN Goto("blocked")
+          ELSE IF ch.c = "ok" THEN Goto("content")
+          ELSE cl' = [cl EXCEPT !.se[cl.m] = ErrOf("data", ch, env.nfault + 1, <<>>), !.dead = Lost(ch.c),
+                                !.pc = IF DEV_NoRsetAfterDataReject THEN "nextMsg" ELSE "failRset"]
 
 (* msg.go:2228 WriteTo into the dot-writer.  A render failure after DATA   *)
-(* cannot be taken back inside the protocol: the intended design closes    *)
-(* the connection so that the server discards the fragment.                *)
+(* cannot be taken back inside the protocol: the client closes the         *)
+(* connection so that the server discards the fragment.                    *)
 WriteContent ==
-  /\ pc = "content"
-  /\ IF cfg.rf[m] = "ok" THEN pc' = "closeData" /\ UNCHANGED <<se, dead, obs, dotOpen>>
-     ELSE /\ se' = [se EXCEPT ![m] = LocalErr("writecontent")]
-          /\ pc' = "nextMsg"
-          /\ IF DEV_ImplicitDot THEN dotOpen' = m /\ UNCHANGED <<obs, dead>>
-             ELSE obs' = CloseConn(obs) /\ dead' = TRUE /\ UNCHANGED dotOpen
-  /\ UNCHANGED <<m, r, ext, rej, dl, top, cfg, budget, nfault, hist, pred>>
+  /\ cl.pc = "content"
+  /\ UNCHANGED <<env, cfg>>
+  /\ IF cfg.rf[cl.m] = "ok" THEN Goto("closeData") /\ obs' = obs
+     ELSE IF DEV_ImplicitDot
+     THEN obs' = obs /\ cl' = [cl EXCEPT !.se[cl.m] = LocalErr("writecontent"), !.pc = "nextMsg", !.dotOpen = cl.m]
+     ELSE obs' = CloseConn(obs) /\ cl' = [cl EXCEPT !.se[cl.m] = LocalErr("writecontent"), !.pc = "nextMsg", !.dead = TRUE]
 
 (* smtp.go:400 dataCloser.Close: "." and the reply to it *)
 CloseData ==
-  /\ pc = "closeData"
+  /\ cl.pc = "closeData"
   /\ \E ch \in EnvChoices :
-       /\ obs' = Observe(Observe(obs, [ev |-> "eod", m |-> m, content |-> "complete"]),
-                         ReplyEv("EOD", ch, nfault + 1, <<>>))
-       /\ pred' = Append(pred, [v |-> "EOD", m |-> m, r |-> 0])
-       /\ IF ch.c = "ok" THEN /\ dl' = [dl EXCEPT ![m] = TRUE] /\ pc' = "postNoop"
-                              /\ UNCHANGED <<se, dead, budget, nfault, hist>>
-          ELSE /\ se' = [se EXCEPT ![m] = ErrOf("dataclose", ch, nfault + 1, <<>>)]
-               /\ dead' = (ch.c = "drop") /\ pc' = "nextMsg" /\ UNCHANGED dl
-               /\ budget' = budget - 1 /\ nfault' = nfault + 1
-               /\ hist' = Append(hist, [v |-> "EOD", m |-> m, r |-> 0, c |-> ch.c, sh |-> ch.sh])
-  /\ UNCHANGED <<m, r, ext, rej, top, cfg, dotOpen>>
+       LET ee == [ev |-> "eod", m |-> cl.m, content |-> "complete"] IN
+       /\ obs' = ObsAll(obs, <<ee, ReplyEv("EOD", ch, env.nfault + 1, <<>>, 250)>>)
+       /\ env' = [env EXCEPT !.pred = Append(@, ProjOf(obs, ee)),
+                             !.budget = IF ch.c = "ok" THEN @ ELSE @ - 1,
+                             !.nfault = IF ch.c = "ok" THEN @ ELSE @ + 1,
+                             !.hist = IF ch.c = "ok" THEN @
+                                      ELSE Append(@, [v |-> "EOD", m |-> cl.m, r |-> 0, c |-> ch.c, sh |-> ch.sh])]
+       /\ IF Blocks(ch) THEN Goto("blocked")
+          ELSE IF ch.c = "ok" THEN cl' = [cl EXCEPT !.dl[cl.m] = TRUE, !.pc = "postNoop"]
+          ELSE cl' = [cl EXCEPT !.se[cl.m] = ErrOf("dataclose", ch, env.nfault + 1, <<>>),
+                                !.dead = Lost(ch.c), !.pc = "nextMsg"]
+  /\ UNCHANGED cfg
 
 (* client.go:1459 ResetWithSMTPClient after delivery: checkConn + RSET *)
 PostNoop ==
-  /\ pc = "postNoop"
-  /\ IF cfg.nonoop THEN pc' = "postRset" /\ Quiet /\ UNCHANGED <<se, dead, obs>>
+  /\ cl.pc = "postNoop"
+  /\ UNCHANGED cfg
+  /\ LET o0 == IF DEV_NoopBeforeDeadline THEN obs ELSE SetDl(obs, TRUE) IN
+     IF cfg.nonoop THEN obs' = SetDl(obs, TRUE) /\ Goto("postRset") /\ UNCHANGED env
      ELSE \E ch \in EnvChoices :
-       /\ Xchg("NOOP", m, 0, <<>>, ch, <<>>)
-       /\ IF ch.c = "ok" THEN pc' = "postRset" /\ UNCHANGED <<se, dead>>
-          ELSE /\ se' = [se EXCEPT ![m] = LocalErr("reset")]
-               /\ dead' = (ch.c = "drop") /\ pc' = "nextMsg"
-  /\ UNCHANGED <<m, r, ext, rej, dl, top, cfg>>
+       LET x == XO(o0, "NOOP", cl.m, 0, <<>>, FALSE, "", ch, <<>>, 250) IN
+       /\ obs' = IF DEV_NoopBeforeDeadline /\ ch.c = "ok" THEN SetDl(x.obs, TRUE) ELSE x.obs
+       /\ env' = x.env
+       /\ IF Blocks(ch) THEN Goto("blocked")
+          ELSE IF ch.c = "ok" THEN Goto("postRset")
+          ELSE cl' = [cl EXCEPT !.se[cl.m] = LocalErr("reset"), !.dead = Lost(ch.c), !.pc = "nextMsg"]
 
 PostRset ==
-  /\ pc = "postRset"
+  /\ cl.pc = "postRset"
   /\ \E ch \in EnvChoices :
-       /\ Xchg("RSET", m, 0, <<>>, ch, <<>>)
-       /\ IF ch.c = "ok" THEN UNCHANGED <<se, dead>>
-          ELSE se' = [se EXCEPT ![m] = ErrOf("reset", ch, nfault + 1, <<>>)] /\ dead' = (ch.c = "drop")
-       /\ pc' = "nextMsg"
-  /\ UNCHANGED <<m, r, ext, rej, dl, top, cfg>>
+       LET x == Plain("RSET", cl.m, 0, <<>>, ch) IN
+       /\ obs' = x.obs /\ env' = x.env /\ UNCHANGED cfg
+       /\ IF Blocks(ch) THEN Goto("blocked")
+          ELSE cl' = [cl EXCEPT !.se[cl.m] = IF ch.c = "ok" THEN @ ELSE ErrOf("reset", ch, env.nfault + 1, <<>>),
+                                !.dead = Lost(ch.c), !.pc = "nextMsg"]
 
 (* RSET that abandons a failed transaction.  If the server refuses even    *)
-(* that, its transaction state is unknown: the intended design closes.     *)
+(* that, its transaction state is unknown: the client closes.              *)
 FailRset ==
-  /\ pc = "failRset"
-  /\ IF dead THEN pc' = "nextMsg" /\ Quiet /\ UNCHANGED <<dead, obs>>
+  /\ cl.pc = "failRset"
+  /\ IF cl.dead THEN Goto("nextMsg") /\ UNCHANGED <<env, cfg, obs>>
      ELSE \E ch \in EnvChoices :
-       /\ pc' = "nextMsg"
-       /\ IF ch.c = "ok" \/ DEV_ContinueAfterRsetFail
-          THEN Xchg("RSET", m, 0, <<>>, ch, <<>>) /\ dead' = (ch.c = "drop")
-          ELSE /\ obs' = CloseConn(Observe(Observe(obs, CmdEv("RSET", m, 0, <<>>)), ReplyEv("RSET", ch, nfault + 1, <<>>)))
-               /\ pred' = Append(pred, ProjOf(obs, CmdEv("RSET", m, 0, <<>>)))
-               /\ budget' = budget - 1 /\ nfault' = nfault + 1
-               /\ hist' = Append(hist, [v |-> "RSET", m |-> m, r |-> 0, c |-> ch.c, sh |-> ch.sh])
-               /\ dead' = TRUE /\ UNCHANGED dotOpen
-  /\ UNCHANGED <<m, r, ext, rej, dl, se, top, cfg>>
+       LET x == Plain("RSET", cl.m, 0, <<>>, ch) IN
+       /\ env' = x.env /\ UNCHANGED cfg
+       /\ IF Blocks(ch) THEN obs' = x.obs /\ Goto("blocked")
+          ELSE IF ch.c = "ok" \/ DEV_ContinueAfterRsetFail
+          THEN obs' = x.obs /\ cl' = [cl EXCEPT !.pc = "nextMsg", !.dead = Lost(ch.c)]
+          ELSE obs' = CloseConn(x.obs) /\ cl' = [cl EXCEPT !.pc = "nextMsg", !.dead = TRUE]
+
+(* Client.Reset (client.go:1111): checkConn (deadline, NOOP) + RSET *)
+ResetBegin ==
+  /\ cl.pc = "resetBegin"
+  /\ UNCHANGED <<env, cfg>>
+  /\ LET o1 == Observe(obs, [ev |-> "call", op |-> "Reset"]) IN
+     IF DEV_NoopBeforeDeadline THEN obs' = o1 /\ Goto("resetNoop")
+     ELSE obs' = SetDl(o1, TRUE) /\ cl' = [cl EXCEPT !.pc = "resetNoop", !.armed = TRUE]
+
+ResetRet(o, failed) == Observe(o, [ev |-> "ret", op |-> "Reset", err |-> failed, elapsed |-> "within"])
+
+ResetNoop ==
+  /\ cl.pc = "resetNoop"
+  /\ UNCHANGED cfg
+  /\ IF cfg.nonoop THEN Goto("resetRset") /\ UNCHANGED <<env, obs>>
+     ELSE \E ch \in EnvChoices :
+       LET x == Plain("NOOP", 0, 0, <<>>, ch) IN
+       /\ env' = x.env
+       /\ IF Blocks(ch) THEN obs' = x.obs /\ Goto("blocked")
+          ELSE IF ch.c = "ok" THEN obs' = (IF DEV_NoopBeforeDeadline THEN SetDl(x.obs, TRUE) ELSE x.obs)
+                                   /\ cl' = [cl EXCEPT !.pc = "resetRset", !.armed = TRUE]
+          ELSE obs' = ResetRet(x.obs, TRUE) /\ cl' = [cl EXCEPT !.pc = "quit", !.dead = Lost(ch.c)]
+
+ResetRset ==
+  /\ cl.pc = "resetRset"
+  /\ UNCHANGED cfg
+  /\ \E ch \in EnvChoices :
+       LET x == Plain("RSET", 0, 0, <<>>, ch) IN
+       /\ env' = x.env
+       /\ IF Blocks(ch) THEN obs' = x.obs /\ Goto("blocked")
+          ELSE obs' = ResetRet(x.obs, ch.c # "ok") /\ cl' = [cl EXCEPT !.pc = "quit", !.dead = Lost(ch.c)]
 
 NextMsg ==
-  /\ pc = "nextMsg" /\ m' = m + 1 /\ pc' = "msgStart"
-  /\ Quiet /\ UNCHANGED <<r, ext, dead, rej, dl, se, top, cfg, obs>>
-
-RetEv(op) ==
-  LET failed == {i \in 1..N : se[i].haserr} IN
-  [ev |-> "ret", op |-> op, err |-> (top # "" \/ failed # {}), elapsed |-> "within", top |-> top,
-   nerrs |-> IF top # "" THEN 1 ELSE Cardinality(failed),
-   msgs |-> [i \in 1..N |-> [delivered |-> dl[i], haserr |-> se[i].haserr, reason |-> se[i].reason,
-                             code |-> se[i].code, temp |-> se[i].temp, esc |-> se[i].esc,
-                             rcpts |-> se[i].rcpts]]]
+  /\ cl.pc = "nextMsg" /\ cl' = [cl EXCEPT !.m = @ + 1, !.pc = "msgStart"]
+  /\ UNCHANGED <<env, cfg, obs>>
 
 SendRet ==
-  /\ pc = "sendRet"
-  /\ IF OP = "Send" THEN obs' = Observe(obs, RetEv("Send")) ELSE obs' = obs
-  /\ pc' = "quit"
-  /\ Quiet /\ UNCHANGED <<m, r, ext, dead, rej, dl, se, top, cfg>>
+  /\ cl.pc = "sendRet"
+  /\ obs' = IF OP = "Send" THEN Observe(obs, RetEv("Send")) ELSE obs
+  /\ Goto("quit")
+  /\ UNCHANGED <<env, cfg>>
 
-(* Client.Close / end of DialAndSend: QUIT; the transport is closed        *)
+(* Client.Close / end of DialAndSend: QUIT; the transport is released      *)
 (* whatever the server answers                                             *)
 CmdQuit ==
-  /\ pc = "quit"
-  /\ IF dead
-     THEN /\ pc' = "finalRet" /\ Quiet /\ UNCHANGED <<dead, top>>
-          \* QUIT cannot be sent any more; the transport is released all the same
-          /\ obs' = IF obs.conn = "open" /\ ~DEV_QuitFailureLeavesConn THEN CloseConn(obs) ELSE obs
-     ELSE \E ch \in EnvChoices :
-       /\ pc' = "finalRet"
-       /\ IF ch.c = "ok" \/ ~DEV_QuitFailureLeavesConn
-          THEN /\ obs' = CloseConn(Observe(Observe(ImplicitDot(obs), CmdEv("QUIT", 0, 0, <<>>)), ReplyEv("QUIT", ch, nfault + 1, <<>>)))
-               /\ dead' = TRUE
-          ELSE /\ obs' = Observe(Observe(ImplicitDot(obs), CmdEv("QUIT", 0, 0, <<>>)), ReplyEv("QUIT", ch, nfault + 1, <<>>))
-               /\ dead' = dead
-       /\ dotOpen' = 0
-       /\ pred' = Append(pred, ProjOf(obs, CmdEv("QUIT", 0, 0, <<>>)))
-       /\ IF ch.c = "ok" THEN UNCHANGED <<budget, nfault, hist, top>>
-          ELSE /\ budget' = budget - 1 /\ nfault' = nfault + 1
-               /\ hist' = Append(hist, [v |-> "QUIT", m |-> 0, r |-> 0, c |-> ch.c, sh |-> ch.sh])
-               /\ top' = IF OP = "DialAndSend" /\ top = "" /\ \A i \in 1..N : ~se[i].haserr THEN "close" ELSE top
-  /\ UNCHANGED <<m, r, ext, rej, dl, se, cfg>>
+  /\ cl.pc = "quit"
+  /\ UNCHANGED cfg
+  /\ IF cl.dead
+     THEN /\ UNCHANGED env /\ Goto("finalRet")
+          /\ obs' = IF DEV_QuitFailureLeavesConn THEN obs ELSE CloseConn(obs)
+     ELSE \E ch \in {c \in EnvChoices : OP = "DialAndSend" \/ c.c # "stall"} :   \* a stand-alone Close is not in C17
+       LET x == Plain("QUIT", 0, 0, <<>>, ch) IN
+       /\ env' = x.env
+       /\ IF Blocks(ch) THEN obs' = x.obs /\ Goto("blocked")
+          ELSE /\ obs' = IF ch.c = "ok" \/ ~DEV_QuitFailureLeavesConn THEN CloseConn(x.obs) ELSE x.obs
+               /\ cl' = [cl EXCEPT !.pc = "finalRet", !.dotOpen = 0,
+                            !.dead = (ch.c = "ok" \/ ~DEV_QuitFailureLeavesConn \/ Lost(ch.c)),
+                            !.top = IF ch.c # "ok" /\ OP = "DialAndSend" /\ @ = "" /\ \A i \in 1..N : ~cl.se[i].haserr
+                                    THEN "close" ELSE @]
 
 FinalRet ==
-  /\ pc = "finalRet"
-  /\ obs' = Observe(Observe(obs, IF OP = "DialAndSend" THEN RetEv("DialAndSend")
-                                 ELSE [ev |-> "ret", op |-> "Close", err |-> FALSE, elapsed |-> "within"]),
-                    [ev |-> "end"])
-  /\ pc' = "done"
-  /\ Quiet /\ UNCHANGED <<m, r, ext, dead, rej, dl, se, top, cfg>>
+  /\ cl.pc = "finalRet"
+  /\ obs' = ObsAll(obs, << IF OP = "DialAndSend" THEN RetEv("DialAndSend")
+                           ELSE [ev |-> "ret", op |-> "Close", err |-> FALSE, elapsed |-> "within"],
+                           [ev |-> "end"] >>)
+  /\ Goto("done")
+  /\ UNCHANGED <<env, cfg>>
 
-Next == \/ DialConnect \/ ReadGreeting \/ CmdEhlo \/ CmdHelo \/ DialOK \/ DialRet
-        \/ SendBegin \/ Noop0 \/ MsgStart \/ CmdMail \/ CmdRcpt \/ CmdData \/ WriteContent
+Next == \/ DialConnect \/ ReadGreeting \/ CmdEhlo \/ CmdHelo \/ PolicyDecision \/ CmdStartTLS \/ Handshake
+        \/ CmdEhloAfterTLS \/ AuthSelect \/ AuthStart \/ AuthMsg \/ AuthAbort \/ AuthQuit \/ DialOK \/ DialRet
+        \/ ResetBegin \/ ResetNoop \/ ResetRset \/ SendBegin \/ Noop0 \/ MsgStart \/ CmdMail \/ CmdRcpt \/ CmdData \/ WriteContent
         \/ CloseData \/ PostNoop \/ PostRset \/ FailRset \/ NextMsg \/ SendRet \/ CmdQuit \/ FinalRet
 
-Spec == Init /\ [][Next]_vars
+Spec     == Init /\ [][Next]_vars
+FairSpec == Spec /\ WF_vars(Next)
 
 -----------------------------------------------------------------------------
 (* properties *)
 
 NoViolation == obs.viol = {}
 
-TypeOK == /\ pc \in STRING /\ m \in 1..(N + 1) /\ budget \in 0..BUDGET /\ dead \in BOOLEAN
+TypeOK == /\ cl.pc \in STRING /\ cl.m \in 1..(N + 1) /\ env.budget \in 0..BUDGET /\ cl.dead \in BOOLEAN
 
-(* the design terminates: every behaviour reaches "done" (checked as       *)
-(* absence of deadlock in any other state)                                 *)
-Terminates == (ENABLED Next) \/ pc = "done"
+(* C17 in the design: the client never blocks for ever - as an invariant   *)
+(* (no state without successor except "done") and as liveness under weak   *)
+(* fairness of the client (every behaviour reaches "done")                 *)
+NeverBlocked == cl.pc # "blocked"
+Terminates   == (ENABLED Next) \/ cl.pc = "done"
+Returns      == <>(cl.pc = "done")
 
 (* scenario emission: environment choices + predicted observable projection *)
-Scenario == [cfg  |-> [cfg EXCEPT !.caps = SetToSeq(@)],
-             env  |-> hist,
-             pred |-> pred,
+Scenario == [cfg  |-> [cfg EXCEPT !.caps = SetToSeq(@), !.authlist = SetToSeq(@), !.caps2 = SetToSeq(@)],
+             env  |-> env.hist,
+             pred |-> env.pred,
              ret  |-> IF obs.ret.op = "none" THEN [op |-> "none", err |-> FALSE] ELSE RetProj(obs.ret),
-             nfault |-> nfault]
-Emit == pc = "done" => PrintT(<<"SCENARIO", ToJson(Scenario)>>)
+             nfault |-> env.nfault]
+Emit == cl.pc = "done" => PrintT(<<"SCENARIO", ToJson(Scenario)>>)
 =============================================================================
